@@ -32,9 +32,10 @@ VARIABLES prog,       \* prog[p]: calls still to make
           rets,       \* history: rets[p] sequence of [k, class]
           peer,       \* items the peer will still send (script)
           avail,      \* how many of them have been delivered to the transport already
+          failArmed,  \* the transport will fail the write of the closing tag (once)
           sv          \* serve process state: [phase, reason, pending]
 
-vars == <<prog, cur, lock, outClosed, inClosed, wire, rets, peer, avail, sv>>
+vars == <<prog, cur, lock, outClosed, inClosed, wire, rets, peer, avail, failArmed, sv>>
 
 NoCall == [k |-> "none", st |-> "none", wrote |-> 0]
 Items == {"stanza", "stanza_reply", "stanza_herr", "close", "streamerr", "eof"}
@@ -45,7 +46,7 @@ Init ==
   /\ cur = [p \in Procs |-> NoCall]
   /\ lock = "free" /\ outClosed = FALSE /\ inClosed = FALSE
   /\ wire = <<>> /\ rets = [p \in Procs |-> <<>>]
-  /\ peer \in PeerScripts /\ avail = 0
+  /\ peer \in PeerScripts /\ avail = 0 /\ failArmed \in BOOLEAN
   /\ sv = [phase |-> "idle", reason |-> "none", owner |-> "none", pending |-> 0]
 
 -----------------------------------------------------------------------------
@@ -58,7 +59,7 @@ Begin(p) ==       \* the next call of p's program starts (before taking any lock
   /\ IF sv.owner = p /\ sv.phase \in {"reading", "closing"}
      THEN sv.pending > 0 /\ sv' = [sv EXCEPT !.pending = @ - 1]   \* only calls Serve itself issued
      ELSE UNCHANGED sv
-  /\ UNCHANGED <<lock, outClosed, inClosed, wire, rets, peer, avail>>
+  /\ UNCHANGED <<lock, outClosed, inClosed, wire, rets, peer, avail, failArmed>>
 
 NeedsOutLock(k) == k \in {"tx", "close", "senderr"}
 
@@ -66,7 +67,7 @@ Acquire(p) ==
   /\ cur[p].st = "entered" /\ NeedsOutLock(cur[p].k) /\ lock = "free"
   /\ lock' = p
   /\ cur' = [cur EXCEPT ![p].st = "holding"]
-  /\ UNCHANGED <<prog, outClosed, inClosed, wire, rets, peer, avail, sv>>
+  /\ UNCHANGED <<prog, outClosed, inClosed, wire, rets, peer, avail, failArmed, sv>>
 
 (* The body of the call is over: the lock (if held) is released here.  The caller   *)
 (* observes the return later (Ret): between the two other goroutines may run.       *)
@@ -79,7 +80,7 @@ Ret(p) ==
   /\ cur[p].st = "returning"
   /\ rets' = [rets EXCEPT ![p] = Append(@, [k |-> cur[p].k, class |-> cur[p].class])]
   /\ cur' = [cur EXCEPT ![p] = NoCall]
-  /\ UNCHANGED <<prog, lock, outClosed, inClosed, wire, peer, avail, sv>>
+  /\ UNCHANGED <<prog, lock, outClosed, inClosed, wire, peer, avail, failArmed, sv>>
 
 (* Transmit: refused once the output stream is closed (C10), otherwise writes its    *)
 (* element in one or more chunks while holding the lock (C05).                       *)
@@ -87,7 +88,7 @@ TxRefuse(p) ==
   /\ cur[p].k = "tx" /\ cur[p].st = "holding" /\ outClosed /\ cur[p].wrote = 0
   /\ "WriteAfterClose" \notin Dev
   /\ Return(p, "closed")
-  /\ UNCHANGED <<prog, outClosed, inClosed, wire, peer, avail, sv>>
+  /\ UNCHANGED <<prog, outClosed, inClosed, wire, peer, avail, failArmed, sv>>
 
 TxWrite(p) ==
   /\ cur[p].k = "tx" /\ cur[p].st = "holding"
@@ -95,44 +96,53 @@ TxWrite(p) ==
   /\ cur[p].wrote < MaxChunks
   /\ wire' = Append(wire, [p |-> p, what |-> "elem", c |-> Len(rets[p])])
   /\ cur' = [cur EXCEPT ![p].wrote = @ + 1]
-  /\ UNCHANGED <<prog, lock, outClosed, inClosed, rets, peer, avail, sv>>
+  /\ UNCHANGED <<prog, lock, outClosed, inClosed, rets, peer, avail, failArmed, sv>>
 
 TxDone(p) ==
   /\ cur[p].k = "tx" /\ cur[p].st = "holding" /\ cur[p].wrote >= 1
   /\ Return(p, "nil")
-  /\ UNCHANGED <<prog, outClosed, inClosed, wire, peer, avail, sv>>
+  /\ UNCHANGED <<prog, outClosed, inClosed, wire, peer, avail, failArmed, sv>>
 
 (* Close: writes the closing tag exactly once, whoever gets there first.             *)
 CloseWrite(p) ==
-  /\ cur[p].k \in {"close", "senderr"} /\ cur[p].st = "holding" /\ ~outClosed
+  /\ cur[p].k \in {"close", "senderr"} /\ cur[p].st = "holding" /\ ~outClosed /\ ~failArmed
   \* (the property does not require that the error element reaches the wire before the
   \*  closing tag - the pinned tests even expect that it does not; if written it goes first)
   /\ outClosed' = TRUE
   /\ wire' = Append(wire, [p |-> p, what |-> "close", c |-> Len(rets[p])])
-  /\ UNCHANGED <<prog, cur, lock, inClosed, rets, peer, avail, sv>>
+  /\ UNCHANGED <<prog, cur, lock, inClosed, rets, peer, avail, failArmed, sv>>
+
+(* The transport fails the write of the closing tag: the stream is closed all the same -  *)
+(* a later Close must not write the tag again and transmit calls are refused - and the     *)
+(* call reports the error.                                                                 *)
+CloseWriteFail(p) ==
+  /\ cur[p].k \in {"close", "senderr"} /\ cur[p].st = "holding" /\ ~outClosed /\ failArmed
+  /\ outClosed' = TRUE /\ failArmed' = FALSE
+  /\ Return(p, "other")
+  /\ UNCHANGED <<prog, inClosed, wire, peer, avail, sv>>
 
 ErrWrite(p) ==
   /\ cur[p].k = "senderr" /\ cur[p].st = "holding" /\ ~outClosed /\ cur[p].wrote = 0
   /\ wire' = Append(wire, [p |-> p, what |-> "err", c |-> Len(rets[p])])
   /\ cur' = [cur EXCEPT ![p].wrote = 1]
-  /\ UNCHANGED <<prog, lock, outClosed, inClosed, rets, peer, avail, sv>>
+  /\ UNCHANGED <<prog, lock, outClosed, inClosed, rets, peer, avail, failArmed, sv>>
 
 CloseDone(p) ==
   /\ cur[p].k \in {"close", "senderr"} /\ cur[p].st = "holding" /\ outClosed
   /\ Return(p, "nil")
-  /\ UNCHANGED <<prog, outClosed, inClosed, wire, peer, avail, sv>>
+  /\ UNCHANGED <<prog, outClosed, inClosed, wire, peer, avail, failArmed, sv>>
 
 (* Input side *)
 CloseInput(p) ==
   /\ cur[p].k = "closeinput" /\ cur[p].st = "entered"
   /\ inClosed' = TRUE
   /\ Return(p, "nil")
-  /\ UNCHANGED <<prog, outClosed, wire, peer, avail, sv>>
+  /\ UNCHANGED <<prog, outClosed, wire, peer, avail, failArmed, sv>>
 
 Rx(p) ==          \* a read attempt after Serve is over
   /\ cur[p].k = "rx" /\ cur[p].st = "entered"
   /\ Return(p, IF inClosed THEN "inclosed" ELSE "other")
-  /\ UNCHANGED <<prog, outClosed, inClosed, wire, peer, avail, sv>>
+  /\ UNCHANGED <<prog, outClosed, inClosed, wire, peer, avail, failArmed, sv>>
 
 -----------------------------------------------------------------------------
 (* Serve: one item of peer input at a time.  The serve call stays current while the *)
@@ -142,11 +152,11 @@ ServeStart(p) ==
   /\ cur[p].k = "serve" /\ cur[p].st = "entered" /\ sv.phase = "idle"
   /\ sv' = [sv EXCEPT !.phase = "reading", !.owner = p]
   /\ cur' = [cur EXCEPT ![p] = NoCall]           \* sub-calls follow; ServeRet ends it
-  /\ UNCHANGED <<prog, lock, outClosed, inClosed, wire, rets, peer, avail>>
+  /\ UNCHANGED <<prog, lock, outClosed, inClosed, wire, rets, peer, avail, failArmed>>
 
 PeerFeed ==
   /\ avail < Len(peer) /\ avail' = avail + 1
-  /\ UNCHANGED <<prog, cur, lock, outClosed, inClosed, wire, rets, peer, sv>>
+  /\ UNCHANGED <<prog, cur, lock, outClosed, inClosed, wire, rets, peer, failArmed, sv>>
 
 ServeItem(p) ==
   /\ sv.phase = "reading" /\ sv.owner = p /\ sv.pending = 0 /\ cur[p] = NoCall /\ avail > 0
@@ -168,7 +178,7 @@ ServeItem(p) ==
                   /\ sv' = [sv EXCEPT !.phase = "closing", !.reason = "eof", !.pending = 2]
                \/ /\ prog' = [prog EXCEPT ![p] = <<"senderr", "closeinput", "close">> \o @]
                   /\ sv' = [sv EXCEPT !.phase = "closing", !.reason = "eof", !.pending = 3]
-  /\ UNCHANGED <<cur, lock, outClosed, inClosed, wire, rets>>
+  /\ UNCHANGED <<cur, lock, outClosed, inClosed, wire, rets, failArmed>>
 
 (* A reply the handler could not write because the output stream was closed locally  *)
 (* ends Serve with that error (the property does not say Serve must go on).          *)
@@ -177,28 +187,29 @@ ServeAbort(p) ==
   /\ rets[p] # <<>> /\ rets[p][Len(rets[p])] = [k |-> "tx", class |-> "closed"]
   /\ prog' = [prog EXCEPT ![p] = <<"senderr", "closeinput", "close">> \o @]
   /\ sv' = [sv EXCEPT !.phase = "closing", !.reason = "refused", !.pending = 3]
-  /\ UNCHANGED <<cur, lock, outClosed, inClosed, wire, rets, peer, avail>>
+  /\ UNCHANGED <<cur, lock, outClosed, inClosed, wire, rets, peer, avail, failArmed>>
 
 (* Serve returns once its shutdown calls are done: nil after the peer's close, the   *)
 (* error otherwise; both directions are closed.                                      *)
 ServeRet(p, class) ==
   /\ sv.phase = "closing" /\ sv.owner = p /\ sv.pending = 0 /\ cur[p] = NoCall
   /\ Len(rets[p]) >= 2 /\ rets[p][Len(rets[p])].k = "close"
-  /\ CASE sv.reason = "peerclose" -> class = "nil"
+  /\ CASE sv.reason = "peerclose" ->      \* nil - unless Serve's own Close could not write the closing tag
+            class = (IF rets[p][Len(rets[p])].class = "other" THEN "other" ELSE "nil")
        [] sv.reason = "streamerr" -> class = "streamerr"
        [] sv.reason = "eof" -> class \in {"nil", "other"}     \* the property is silent on a raw EOF
        [] sv.reason = "refused" -> class \in {"closed", "other"}
        [] OTHER -> class = "other"
   /\ sv' = [sv EXCEPT !.phase = "done"]
   /\ rets' = [rets EXCEPT ![p] = Append(@, [k |-> "serve", class |-> class])]
-  /\ UNCHANGED <<prog, cur, lock, outClosed, inClosed, wire, peer, avail>>
+  /\ UNCHANGED <<prog, cur, lock, outClosed, inClosed, wire, peer, avail, failArmed>>
 
 -----------------------------------------------------------------------------
 Next ==
   \/ PeerFeed
   \/ \E p \in Procs :
       \/ Begin(p) \/ Ret(p) \/ Acquire(p) \/ TxRefuse(p) \/ TxWrite(p) \/ TxDone(p)
-      \/ CloseWrite(p) \/ ErrWrite(p) \/ CloseDone(p) \/ CloseInput(p) \/ Rx(p)
+      \/ CloseWrite(p) \/ CloseWriteFail(p) \/ ErrWrite(p) \/ CloseDone(p) \/ CloseInput(p) \/ Rx(p)
       \/ ServeStart(p) \/ ServeItem(p) \/ ServeAbort(p)
       \/ \E c \in {"nil", "streamerr", "other", "closed"} : ServeRet(p, c)
 
@@ -212,7 +223,7 @@ CloseIdx == {i \in 1..Len(wire) : wire[i].what = "close"}
 
 C10_OneCloseTag == Cardinality(CloseIdx) <= 1
 C10_NothingAfterClose == \A i \in CloseIdx : i = Len(wire)
-C10_ClosedIffTag == outClosed <=> CloseIdx # {}
+C10_ClosedIffTag == (CloseIdx # {} => outClosed) /\ (outClosed /\ CloseIdx = {} => ~failArmed)  \* closed without a tag only after the write fault
 (* a transmit call returns nil only if it wrote, and "closed" only if it wrote nothing *)
 C10_SendersRefused ==
   \A p \in Procs : \A i \in 1..Len(rets[p]) :
@@ -241,5 +252,5 @@ C05_NoStrayWrites ==
 (* liveness (FairSpec, no deviations): every program finishes, Serve returns *)
 Terminates == <>(\A p \in Procs : prog[p] = <<>> /\ cur[p] = NoCall)
 
-View == <<prog, cur, lock, outClosed, inClosed, wire, rets, peer, avail, sv>>
+View == <<prog, cur, lock, outClosed, inClosed, wire, rets, peer, avail, failArmed, sv>>
 =============================================================================
